@@ -275,6 +275,10 @@ func (m *toolManager) handleCallTool(
 		errMsg := fmt.Sprintf("tool execution failed (tool: %s): handler returned no result", registeredTool.Tool.Name)
 		return newJSONRPCErrorResponse(req.ID, ErrCodeInternal, errMsg, nil), nil
 	}
+	if result.Content == nil {
+		// "content" is a required array of the tool result: encode an absent list as [], not null.
+		result.Content = []Content{}
+	}
 
 	return result, nil
 }
